@@ -22,6 +22,10 @@ Two families instantiate the outcome classes with different VALUE CLASSES (vclas
                                   the value handed to the step that fails:
                                     seqs, dict_info, str path                    name their source
                                     dict_info_none, dict_plain, bytes            do not
+                                  STEP TYPING: step 3 is c14_v2 (concretely typed) or one of
+                                  c14_v2s_* / c14_v2i_* hinted SerialisableType / IdentifierType,
+                                  i.e. accepting anything, whose main would (attr) / would not
+                                  (safe) raise when handed a NotCompleted
 
 Control of the schedule (parallel runs), all inside the loader's `main`:
   ctl/started/<name>   written when a worker picked the task up
@@ -286,8 +290,40 @@ class c14_v2:
         return _value_step(self, "c14_v2", 3, val)
 
 
+def _make_step3(name, hint, safe):
+    """step 3 with an input hint that accepts ANYTHING (SerialisableType / IdentifierType): cogent3
+    does no type check for such a step, so only the pass-through rule keeps an upstream
+    NotCompleted out of its main().  `safe` = False: main would raise AttributeError on a
+    NotCompleted (value_parts calls .to_dict()); `safe` = True: main would not raise on it (it
+    describes whatever it gets)"""
+
+    class _Step3:
+        def __init__(self, plan, vclass, payloads):
+            self.plan = plan
+            self.vclass = vclass
+            self.payloads = payloads
+
+        def main(self, val):
+            if safe and not isinstance(val, (dict, str, bytes)) and not hasattr(val, "to_dict"):
+                return {"c14_unrecognised": type(val).__name__, "text": str(val)}
+            return _value_step(self, name, 3, val)
+
+    _Step3.main.__annotations__ = {"val": hint, "return": VT}
+    _Step3.__name__ = _Step3.__qualname__ = name
+    _Step3.__module__ = __name__
+    _Step3.__doc__ = "step 3, accepts anything"
+    return define_app(_Step3)
+
+
+c14_v2s_attr = _make_step3("c14_v2s_attr", SerialisableType, False)
+c14_v2s_safe = _make_step3("c14_v2s_safe", SerialisableType, True)
+c14_v2i_attr = _make_step3("c14_v2i_attr", IdentifierType, False)
+c14_v2i_safe = _make_step3("c14_v2i_safe", IdentifierType, True)
+STEP3 = {"typed": c14_v2, "ser_attr": c14_v2s_attr, "ser_safe": c14_v2s_safe, "id_attr": c14_v2i_attr, "id_safe": c14_v2i_safe}
+
 STEP_OF_ORIGIN = {
     "c14_load": 1, "c14_g1": 2, "c14_g2": 3,
     "c14_vload": 1, "c14_v1": 2, "c14_v2": 3,
+    "c14_v2s_attr": 3, "c14_v2s_safe": 3, "c14_v2i_attr": 3, "c14_v2i_safe": 3,
     "write_seqs": 4, "write_json": 4, "write_db": 4,
 }
